@@ -219,4 +219,3 @@ func odHash(s string) uint64 {
 	}
 	return h
 }
-
